@@ -665,15 +665,24 @@ def b_int(eng, st, args, kw):
     if isinstance(v, (SInt, SBool, SEnum, SAny)):
         return eng.as_int(st, v)
     if isinstance(v, SStr):
-        # int(str): inverse of str(int) on canonical decimal strings; raises ValueError otherwise
-        ok = z3.Bool(sym.fresh_name("int_parse_ok"))
-        r = z3.StrToInt(v.t)
+        # int(str): the inverse of str(int) on strings that ARE the str() of an int; every other string raises ValueError
+        # (non-canonical spellings like "+1" or " 1", which int() also accepts, are treated as raising: recorded assumption)
+        c = z3.simplify(v.t)
+        if z3.is_string_value(c):
+            try:
+                k = int(c.as_string())
+                to_str(eng, st, SInt(k))
+                return [(st, SInt(k))]
+            except ValueError:
+                return [(eng.raise_(st, "ValueError", "int() of a non-number"), None)]
+        to_str(eng, st, SInt(z3.Int("is!seed")))  # make sure the inverse-pair axiom is on the path
+        r = STR_INT(v.t)
         out = []
-        for s, side in eng.branch(st, z3.And(r >= 0, z3.IntToStr(r) == v.t)):
+        for s, side in eng.branch(st, INT_STR(r) == v.t):
             if side:
                 out.append((s, SInt(r)))
             else:
-                raise Unsupported("int(str) outside canonical non-negative decimals")
+                out.append((eng.raise_(s, "ValueError", "int() of a non-number"), None))
         return out
     if isinstance(v, SOpaque):
         return [(st, SInt(sym.fresh_int("int_of_float")))]
@@ -697,6 +706,8 @@ def b_repr(eng, st, args, kw):
 
 
 _STRFN = {}
+INT_STR = z3.Function("py_int_str", sym.IntS, sym.StrS)
+STR_INT = z3.Function("py_str_int", sym.StrS, sym.IntS)
 
 
 def to_str(eng, st, v, repr_=False) -> SStr:
@@ -706,7 +717,19 @@ def to_str(eng, st, v, repr_=False) -> SStr:
     if isinstance(v, SStr) and not repr_:
         return v
     if isinstance(v, SInt):
-        return SStr(z3.If(v.t >= 0, z3.IntToStr(v.t), z3.Concat(z3.StringVal("-"), z3.IntToStr(-v.t))))
+        # str(int) / int(str) are an abstract inverse pair INT_STR / STR_INT (the sequence theory's int.to.str makes every query
+        # on the path expensive); decimal literals are tied to it when they meet a literal int
+        c = z3.simplify(v.t)
+        st.ghost.setdefault("__int_str__", False)
+        if not st.ghost["__int_str__"]:
+            st.ghost["__int_str__"] = True
+            i = z3.Int("is!i")
+            st.assume(z3.ForAll([i], STR_INT(INT_STR(i)) == i, patterns=[INT_STR(i)]))
+        if z3.is_int_value(c):
+            lit = z3.StringVal(str(c.as_long()))
+            st.assume(INT_STR(c) == lit)
+            return SStr(lit)
+        return SStr(INT_STR(v.t))
     if isinstance(v, (SExcVal, SFunc, SBuiltin)):
         return SStr(sym.fresh_str("repr"))
     key = "repr" if repr_ else "str"
@@ -1100,6 +1123,36 @@ def b_getattr(eng, st, args, kw):
     return res
 
 
+@_b("eval")
+def b_eval(eng, st, args, kw):
+    # eval of a type name: an opaque class object (encoding assumption: total on the type names the property admits)
+    f = z3.Function("py_eval", Val, sym.IntS)
+    return [(st, SOpaque(f(args[0].val()), label="eval"))]
+
+
+@_b("issubclass")
+def b_issubclass(eng, st, args, kw):
+    f = z3.Function("py_issubclass", Val, Val, sym.BoolS)
+    return [(st, SBool(f(args[0].val(), args[1].val())))]
+
+
+@_b("replace")
+def b_replace(eng, st, args, kw):
+    """dataclasses.replace(obj, **changes): a new object of the same class"""
+    obj = args[0]
+    if not (isinstance(obj, SRef) and obj.ty.kind == "class"):
+        raise Unsupported("replace() of non-object")
+    ci = eng.reg.get(obj.ty.name)
+    r = st.alloc()
+    st.heap.dyn_cls = z3.Store(st.heap.dyn_cls, r, z3.Select(st.heap.dyn_cls, obj.t))
+    for f, fty in ci.fields.items():
+        if f in kw:
+            eng.store_field(st, r, f, kw[f])
+        else:
+            st.write_field(r, f, st.read_field(obj.t, f))
+    return [(st, SRef(r, obj.ty))]
+
+
 @_b("print")
 def b_print(eng, st, args, kw):
     return [(st, NONEV)]
@@ -1128,6 +1181,11 @@ def value_method(eng, st, v, attr):
     from .engine import SBytes, SExcVal
     from . import bytesalg
     table = None
+    if isinstance(v, SRef) and eng.contracts is not None and getattr(v, "origin", None) in eng.contracts.persistent_fields:
+        if attr == "append" and v.ty.kind == "list":
+            return SBuiltin("pvector.append", m_pvector_append, self_val=v)
+        if attr == "set" and v.ty.kind == "dict":
+            return SBuiltin("pmap.set", m_pmap_set, self_val=v)
     if isinstance(v, SRef) and v.ty.kind == "dict":
         table = DICT_METHODS
     elif isinstance(v, SRef) and v.ty.kind == "set":
@@ -1149,9 +1207,29 @@ def value_method(eng, st, v, attr):
     from .engine import SConstMap
     if isinstance(v, SConstMap):
         table = CONSTMAP_METHODS
+    if isinstance(v, SRec) and attr == "model_copy":
+        return SBuiltin("model_copy", m_model_copy, self_val=v)
     if table is not None and attr in table:
         return SBuiltin(attr, table[attr], self_val=v)
     return None
+
+
+def m_model_copy(eng, st, args, kw):
+    """pydantic BaseModel.model_copy(update={...}): a new model whose fields are the receiver's, overridden by `update`"""
+    rec = args[0]
+    upd = kw.get("update")
+    fields = dict(rec.fields)
+    if upd is not None:
+        if not (isinstance(upd, SRef) and upd.ty.kind == "dict"):
+            raise Unsupported("model_copy(update=non-dict)")
+        for f, fty in rec.ci.fields.items():
+            kt = Val.str(z3.StringVal(f))
+            present = z3.simplify(z3.Select(st.dom(upd.t), kt))
+            if z3.is_true(present):
+                fields[f] = wrap_elem(eng, st, z3.simplify(z3.Select(st.cmap(upd.t), kt)), fty)
+            elif not z3.is_false(present):
+                raise Unsupported("model_copy with a symbolic update key")
+    return [(st, SRec(rec.ci, fields))]
 
 
 CONSTMAP_METHODS = {
@@ -1226,6 +1304,20 @@ def m_dict_update(eng, st, args, kw):
     raise Unsupported("dict.update form")
 
 
+def m_pmap_set(eng, st, args, kw):
+    """pyrsistent PMap.set: a NEW map, the receiver is unchanged"""
+    d2 = dict_copy(eng, st, args[0])
+    dict_set(eng, st, d2, args[1], args[2])
+    return [(st, d2)]
+
+
+def m_pvector_append(eng, st, args, kw):
+    """pyrsistent PVector.append: a NEW vector"""
+    l2 = snapshot_list(eng, st, args[0])
+    list_append(eng, st, l2, args[1])
+    return [(st, l2)]
+
+
 def m_dict_copy(eng, st, args, kw):
     return [(st, dict_copy(eng, st, args[0]))]
 
@@ -1236,6 +1328,7 @@ DICT_METHODS = {
     "setdefault": m_dict_setdefault,
     "update": m_dict_update,
     "copy": m_dict_copy,
+    "set": m_pmap_set,
     "keys": lambda eng, st, a, k: [(st, SView("keys", a[0]))],
     "values": lambda eng, st, a, k: [(st, SView("values", a[0]))],
     "items": lambda eng, st, a, k: [(st, SView("items", a[0]))],
@@ -1459,6 +1552,8 @@ def class_attr(eng, st, v, attr):
 def external_name(eng, module, attr):
     if module in ("time",) and attr in ("time_ns", "perf_counter_ns", "monotonic_ns"):
         return SBuiltin(attr, b_time_ns)
+    if module == "dataclasses" and attr == "replace":
+        return SBuiltin("replace", BUILTINS["replace"])
     if module == "collections" and attr == "defaultdict":
         return SBuiltin("defaultdict", b_defaultdict)
     if module == "threading" and attr == "Lock":
